@@ -208,15 +208,23 @@ static void add_attr(const char *attr_name, enum xcm_attr_type type,
 	return;
 
     struct ctl_proto_get_all_attr_cfm *cfm = data;
+
+    /* The reply has room for a fixed number of attributes, with
+       names and values of limited size. What does not fit is left
+       out (it can still be retrieved with a get request, which
+       reports EOVERFLOW for an oversized value). */
+    if (cfm->attrs_len == CTL_PROTO_MAX_ATTRS ||
+	strlen(attr_name) >= sizeof(cfm->attrs[0].name) ||
+	len > sizeof(cfm->attrs[0].any_value))
+	return;
+
     struct ctl_proto_attr *attr = &cfm->attrs[cfm->attrs_len];
 
     cfm->attrs_len++;
-    ut_assert(cfm->attrs_len < CTL_PROTO_MAX_ATTRS);
 
     strcpy(attr->name, attr_name);
     attr->value_type = type;
 
-    ut_assert(attr->value_len < sizeof(attr->any_value));
     memcpy(attr->any_value, value, len);
     attr->value_len = len;
 }
